@@ -109,8 +109,11 @@ Cause(b, c, f) ==
     [] OTHER -> "-"
 
 \* causes of every promql/impossible problem of the case (a C04 violation may be their consequence)
+\* ("ok": the problem is right for data carrying every named label - the premise of C12, which C04 does not have)
 CaseCauses(rec, e) ==
-  UNION {{[kind |-> rec.c12[i].flags[j].kind, cause |-> Cause(SubExpr(e, rec.c12[i].path, 1), rec.c12[i], rec.c12[i].flags[j])]
+  UNION {{[kind |-> rec.c12[i].flags[j].kind,
+           cause |-> IF C12Bad(rec.c12[i], rec.c12[i].flags[j])
+                     THEN Cause(SubExpr(e, rec.c12[i].path, 1), rec.c12[i], rec.c12[i].flags[j]) ELSE "ok"]
             : j \in 1..Len(rec.c12[i].flags)} : i \in 1..Len(rec.c12)}
 \* the series is consistent with a branch the analysis declared dead
 ViaDead(rec, names) == \E i \in 1..Len(rec.branches) :
